@@ -481,6 +481,15 @@ pub fn exec_op(ctx: &Arc<Ctx>, op: &Op, caller: usize, nested: bool, local: &mut
             return;
         }
         Op::DropStream => { desync::verif::log("api", "DROPSTREAM", 0, String::new()); local.out.take(); return; }
+        Op::DropStreamInJob(q) => {
+            // the stream is dropped by a job running on the object's own queue (PipeStream::drop must not release the pipe's strong
+            // reference on that thread: Desync::drop would sync on the queue it is running on)
+            if let Some((_, s)) = local.out.take() { if let Some(obj) = ctx.obj(*q) {
+                ctx.add_pending(); let c2 = ctx.clone();
+                obj.desync(move |_| { desync::verif::log("api", "DROPSTREAM", 1, String::new()); drop(s); c2.done_pending(); });
+            } }
+            return;
+        }
         Op::AwaitRelease(k) => {
             // the pipe must let go of its input stream and closure: wait for it (a pipe that never does is reported as a hang)
             while !ctx.streams[*k].released.load(SeqCst) { rt::thread::yield_now(); }
@@ -751,7 +760,7 @@ pub fn pipe_oracles(ctx: &Arc<Ctx>) {
         Op::PipeIn(q, k) => { kind.insert(*k, ('I', *q)); }
         Op::Pipe(q, k, _) => { kind.insert(*k, ('J', *q)); }
         Op::DropObj(q) => { dropped_obj.insert(*q); }
-        Op::DropStream => { stream_dropped = true; }
+        Op::DropStream | Op::DropStreamInJob(_) => { stream_dropped = true; }
         Op::Consume(0) => { for (k, _) in kind.iter() { consumed_all.insert(*k); } }
         _ => {}
     } } }
